@@ -757,6 +757,7 @@ func (b *BloomSearchEngine) processDataBlock(
 			fail(err)
 			return
 		}
+		verifEventS("scan.row", 0, 0, unsafeString(rowBytes))
 
 		if err := batcher.add(row); err != nil {
 			return
